@@ -66,6 +66,11 @@ pub fn programs() -> Vec<Prog> {
         p("ctl-same-fact-three-origins", vec!["n(1); n(2); r($x) <- n($x);", "r($x) <- n($x); n(3);", "r($x) <- n($x) trusting previous; check if r(3);"], "r($x) <- n($x); check if r(1); check all r($x), $x < 3; allow if r(2); deny if true;", vec!["q($x) <- r($x)", "q($x) <- r($x) trusting previous"]),
         p("ctl-same-fact-via-two-rules", vec!["n(1); a($x) <- n($x); r($x) <- a($x);", "r($x) <- n($x); reject if r(2);"], "reject if r(5); check if r(1); allow if true;", vec!["q($x) <- r($x)"]),
         p("ctl-all-bindings-err", vec![], "n(0); check if n($x), 10 / $x > 0; allow if true;", vec![]),
+        // a projecting rule: two bindings give the same head, one of them fails. Rule application evaluates
+        // every binding, so the error is reported whatever the order
+        p("ctl-rule-projection-erring+succeeding-binding-same-head", vec![], "score(\"alice\", 0); score(\"alice\", 50); score(\"bob\", 10); eligible($u) <- score($u, $n), 100 / $n >= 1; allow if true;", vec!["q($u) <- eligible($u)"]),
+        p("ctl-query-projection-erring+succeeding-binding-same-head", vec![], "score(\"alice\", 0); score(\"alice\", 50); allow if true;", vec!["q($u) <- score($u, $n), 100 / $n >= 1"]),
+        p("ctl-same-fact-authorizer-and-authority", vec!["user(\"alice\"); member($u) <- user($u);"], "user(\"alice\"); member($u) <- user($u); check if member(\"alice\"); allow if true;", vec!["q($u) <- member($u)", "q($u) <- member($u) trusting previous"]),
         // derivation chains that cross rule groups (one group per trusted-origin set): the number of fixpoint
         // iterations, and with it what a tight iteration budget allows, must not depend on the group order
         p("ctl-chain-across-two-groups", vec!["a(1); b($x) <- a($x);", "c($x) <- b($x) trusting previous; check if c(1);"], "allow if true;", vec!["q($x) <- c($x) trusting previous"]),
